@@ -33,7 +33,7 @@ TRUSTED_BASE = ["vf.refs.kvline", "vf.ctl.Session"]
 ANCHORS = ["txtorcon.torcontrolprotocol:TorControlProtocol.set_conf",
            "txtorcon.torcontrolprotocol:TorControlProtocol.queue_command",
            "txtorcon.torcontrolprotocol:TorControlProtocol._maybe_issue_command"]
-FLOORS = {"quick": {"evaluations": 3000, "lines_decoded": 2500, "queued_calls": 800, "control_char_cases": 500, "marker_literal_cases": 100, "long_commands": 3,
+FLOORS = {"quick": {"evaluations": 3000, "lines_decoded": 2500, "queued_calls": 800, "control_char_cases": 500, "marker_literal_cases": 100, "odd_but_legal_key_cases": 60, "long_commands": 3,
                     "reach:txtorcon.torcontrolprotocol:TorControlProtocol.set_conf": 3000},
           "thorough": {"evaluations": 30000, "lines_decoded": 25000}}
 
@@ -241,6 +241,13 @@ def run_shard(spec, rec):
                         go({"pairs": pairs})
                         n += 1
         go({"pairs": [("", "v")]})
+        # keys that ARE legal kvline keys although they look odd: they must arrive as given
+        odd = ['a"b', '"Log"', "a\\b", "Log\\", "Log\x7f", "Lo\x01g", "Log%", "Log%%", "%s", "Log%d", "%(x)s", "{0}", "{}", "{us}",
+               "Log'", "Lo,g", "a/b", "__X", "-", "+Log", "/Log"]
+        for k in odd:
+            for pairs in ([(k, "v")], [("ORPort", "0"), (k, "x y")], [(k, ""), ("ORPort", "0")], [(k, 5), (k, "two")]):
+                go({"pairs": pairs})
+                rec.count("odd_but_legal_key_cases")
         rec.count("unencodable_key_cases", n + 1)
         rec.enumerated("critical character x position in key x pair position")
     elif mode == "literals":
